@@ -206,4 +206,14 @@ theorem incl_5321_822 (b : Build) (conv : List Nat → Conv) (s : List Nat) (tld
             rw [e1, hostPart_shared b conv .m822 .m5321 (by decide) (by decide)]
             exact h
 
+/-! ### the hypotheses are satisfiable, and the restriction to quote-free pure-ASCII local parts is needed -/
+
+/-- `a.b` and `a..b` are plain (no quote, no backslash, ASCII) -/
+example : Plain [97, 46, 98] ∧ Plain [97, 46, 46, 98] := by
+  constructor <;> (intro c hc; simp only [List.mem_cons, List.mem_nil_iff, or_false] at hc; rcases hc with rfl | rfl | rfl | rfl <;> decide) <;> done
+/-- same code in two modes on such a local part (here: "too many dots") -/
+example : localOf {} .m822 [97, 46, 46, 98] = localOf {} .m5322 [97, 46, 46, 98] := by decide
+/-- with a quoted blank the modes differ: 5321 accepts `"a b"`, 5322 does not -/
+example : localOf {} .m5321 [34, 97, 32, 98, 34] = 0 ∧ localOf {} .m5322 [34, 97, 32, 98, 34] ≠ 0 := by decide
+
 end Eav.Props.C12
